@@ -24,7 +24,7 @@ RULE = ("a case places secret fields (aes / xor / best) at the root, in sub-sche
         "opens during dumps/loads contains no key file other than the expected ones, (4) a fresh configuration (new "
         "objects; 1 in 40 in a new process) loading the document gets every plaintext back; non-trivial = >= 2 "
         "non-empty secrets at >= 2 depths; distinct = distinct case content")
-REQUIRED = ("layout:two-types-one-schema-different-keyfiles", "layout:only-keyed-subtrees", "layout:transplanted-subconfig", "layout:names-inherited-file", "documents_scanned_for_tokens", "ciphertexts_decrypted_by_oracle", "keyfile_open_sets_checked",
+REQUIRED = ("saves_failed_for_missing_key_directory", "layout:two-types-one-schema-different-keyfiles", "layout:only-keyed-subtrees", "layout:transplanted-subconfig", "layout:names-inherited-file", "documents_scanned_for_tokens", "ciphertexts_decrypted_by_oracle", "keyfile_open_sets_checked",
             "reloads_compared", "layout:root-ctor", "layout:root-attr", "layout:sub", "layout:ctype", "layout:default",
             "secrets_in_list_items", "rekey_after_first_use", "new_process_reloads")
 ASSUMPTIONS = ["only files under the sandbox root are considered; HOME is redirected so the default key file is sandboxed",
@@ -50,6 +50,9 @@ def generate(rng, ctx):
         # a second configuration type made from the same schema under the same name, with another (or no) key file
         "T2": rng.random() < 0.5,
     }
+    # the directory of the root's key file does not exist when the configuration is first saved (that save fails); it is
+    # created afterwards and the SAME configuration object is saved again
+    layout["keydir_late"] = layout["root"] is not None and rng.random() < 0.2
     # the root names nothing and holds no secret of its own: the default key file must never be touched
     layout["only_keyed_subtrees"] = rng.random() < 0.15
     if layout["only_keyed_subtrees"]:
@@ -69,7 +72,9 @@ def generate(rng, ctx):
             return ""
         tok = token(rng)
         n = rng.choice([1, 5, 18, 19, 33, 64, 100])
-        pad = "".join(rng.choice("abc xyzé中\U0001f600") for _ in range(max(0, n - len(tok))))
+        # the alphabet includes text that is not in NFC / NFKC form (combining accent, angstrom sign, ligature, full-width letter)
+        pad = "".join(rng.choice(["a", "b", "c", " ", "x", "y", "z", "é", "中", "\U0001f600", "e\u0301", "\u212b", "\ufb01", "\uff41",
+                                  "\u0307\u0323"]) for _ in range(max(0, n - len(tok))))
         return (pad[: len(pad) // 2] + tok + pad[len(pad) // 2:]) if rng.random() < 0.7 else tok
     values = {
         "s": secret(), "lst": [secret(False) for _ in range(rng.choice([0, 1, 2, 3]))],
@@ -220,13 +225,18 @@ def run(case, ctx, res):
     log = ctx.filelog
     if log is None:
         log = ctx.filelog = FileLog(ctx.sb.root)
-    allkeys = [os.path.join(d, n) for n in ("root.key", "root2.key", "a.key", "ab.key", "T.key", "T2.key", "TI.key", "donor.key")] + [default]
+    allkeys = [os.path.join(d, n) for n in ("root.key", os.path.join("late", "root.key"), "root2.key", "a.key", "ab.key", "T.key", "T2.key", "TI.key", "donor.key")] + [default]
     if lay["existing"]:
         for i, p in enumerate(allkeys):
+            if os.path.basename(os.path.dirname(p)) == "late":
+                continue
             with open(p, "wb") as fp:
                 fp.write(bytes((case["r"] + 7 * i + j * 13) % 256 for j in range(32)))
     schema = build_schema(cc, case, d)
-    cfg = make_config(cc, schema, case, d)
+    rootkey = "root.key"
+    if lay.get("keydir_late") and lay["root"]:
+        rootkey = os.path.join("late", "root.key")
+    cfg = make_config(cc, schema, case, d, rootkey)
     fill(cfg, case["values"])
     if lay.get("transplant_a"):
         donor = cc.Config(schema, key_filename=os.path.join(d, "donor.key"))
@@ -249,7 +259,17 @@ def run(case, ctx, res):
     if case["values"]["items"] or case["values"]["titems"] or case["values"]["lst"]:
         res.count("secrets_in_list_items")
     positions = secret_positions(case["values"])
-    rootkey = "root.key"
+    if rootkey != "root.key":
+        res.count("layout:key-directory-created-after-a-failed-save")
+        try:
+            cfg.dumps(case["fmts"][0])
+            res.count("save_without_key_directory_did_not_fail")
+        except Exception:
+            res.count("saves_failed_for_missing_key_directory")
+        os.makedirs(os.path.join(d, "late"), exist_ok=True)
+        if lay["existing"] and case["r"] % 2:
+            with open(os.path.join(d, rootkey), "wb") as fp:
+                fp.write(bytes((case["r"] + 5 * j) % 256 for j in range(32)))
     rounds = [("first", rootkey)]
     if lay["rekey"] and lay["root"]:
         rounds.append(("rekeyed", "root2.key"))
